@@ -325,10 +325,19 @@ func (m *Machine) block(cond func() bool, what string) {
 func (m *Machine) deadlock() {
 	p := m.path
 	desc := "deadlock:"
+	shown, more := 0, 0
 	for _, g := range p.gor {
 		if !g.done {
-			desc += fmt.Sprintf(" g%d[%s]", g.id, g.what)
+			if shown < 4 {
+				desc += fmt.Sprintf(" g%d[%s]", g.id, g.what)
+				shown++
+			} else {
+				more++
+			}
 		}
+	}
+	if more > 0 {
+		desc += fmt.Sprintf(" (+%d more blocked goroutines)", more)
 	}
 	var stack []string
 	for _, g := range p.gor {
